@@ -20,14 +20,16 @@ from rv import gen, oracle
 PLAN = {
     "quick": {"cases": 3000, "hashseeds": 3, "shards": 5, "timeout": 420, "min_nontrivial": 1200,
               "backends": ["numpy", "torch"], "torch_cases": 500, "torch_shards": 1, "torch_hashseeds": 1},
-    "thorough": {"cases": 24000, "hashseeds": 8, "shards": 2, "timeout": 3000, "min_nontrivial": 9000,
-                 "backends": ["numpy", "torch"], "torch_cases": 3000, "torch_shards": 2, "torch_hashseeds": 2},
+    "thorough": {"cases": 12000, "hashseeds": 8, "shards": 2, "timeout": 3000, "min_nontrivial": 4500,
+                 "backends": ["numpy", "torch"], "torch_cases": 2000, "torch_shards": 2, "torch_hashseeds": 2},
 }
 if os.environ.get("RV_C04_DEV_CASES"):      # development aid (mutation runs): a PREFIX of the quick case list, so
-    _n = int(os.environ["RV_C04_DEV_CASES"])  # anything it catches the full quick tier catches too
-    PLAN["quick"].update(cases=_n, torch_cases=max(20, _n // 6), min_nontrivial=_n // 3)
+    _n = int(os.environ["RV_C04_DEV_CASES"])  # anything it catches the full tier catches too
+    for _t in PLAN.values():
+        _t.update(cases=_n, torch_cases=max(20, _n // 6), min_nontrivial=_n // 3)
 RULE = ("one case = a pool of 5 named variables (names: strings / ints / tuples; cards 1-4; state names identity / "
-        "1-based / permuted ints / strings / tuples / mixed) and 4 factors of 0-4 variables whose scopes are "
+        "1-based / permuted ints / strings / tuples / mixed; thorough tier: 6 variables, cards 1-5, scopes up to 5, "
+        "9-step histories) and 4 factors of 0-4 variables whose scopes are "
         "disjoint / nested / overlapping / equal-but-permuted / empty / random, in random axis order, values from "
         "a grid with exact zeros; a fixed battery of ~90 operation instances is run on them: unary "
         "(marginalize, maximize, reduce by state name, normalize; in-place and out-of-place; sum-out order; "
@@ -234,16 +236,16 @@ def _subset(rng, vs, lo=0, hi=None):
     return rng.sample(vs, rng.randint(lo, hi))
 
 
-def _pair_scopes(rng, pool, rel):
+def _pair_scopes(rng, pool, rel, mx=4):
     n = len(pool)
     if rel == "disjoint":
         p = pool[:]
         rng.shuffle(p)
         ka = rng.randint(1, 3)
-        kb = rng.randint(1, min(4, n - ka))
+        kb = rng.randint(1, min(mx, n - ka))
         return p[:ka], p[ka:ka + kb]
     if rel == "nested":
-        a = _subset(rng, pool, 2, 4)
+        a = _subset(rng, pool, 2, mx)
         b = _subset(rng, a, 0, len(a) - 1)
         return (a, b) if rng.random() < 0.5 else (b, a)
     if rel == "overlap":
@@ -255,11 +257,11 @@ def _pair_scopes(rng, pool, rel):
         sh = p[:ks]
         return sh + p[ks:ks + ka], sh + p[ks + ka:ks + ka + kb]
     if rel == "equal":
-        a = _subset(rng, pool, 1, 4)
+        a = _subset(rng, pool, 1, mx)
         return a, a[:]
     if rel == "empty":
-        return [], _subset(rng, pool, 0, 4)
-    return _subset(rng, pool, 0, 4), _subset(rng, pool, 0, 4)
+        return [], _subset(rng, pool, 0, mx)
+    return _subset(rng, pool, 0, mx), _subset(rng, pool, 0, mx)
 
 
 def _gen_unary(rng, card, f):
@@ -331,37 +333,61 @@ def _gen_chain(rng, pool, card, factors, steps=6):
     return out
 
 
+def _force_zero_over_zero(rng, card, f, g):
+    """Zero one cell of the divisor g and every cell of the dividend f that agrees with it (0/0 must give 0)."""
+    gi = rng.randrange(len(g["values"]))
+    hit = []
+    for k, combo in enumerate(itertools.product(*[range(card[v]) for v in f["vars"]])):
+        a = dict(zip(f["vars"], combo))
+        j = 0
+        for v in g["vars"]:
+            j = j * card[v] + a[v]
+        if j == gi:
+            hit.append(k)
+    if len(hit) < len(f["values"]) or len(f["values"]) == 1:
+        g["values"][gi] = 0.0
+        for k in hit:
+            f["values"][k] = 0.0
+        if all(x == 0 for x in f["values"]) and len(f["values"]) > 1:
+            f["values"][(hit[0] + 1) % len(f["values"])] = 1.0
+
+
 def gen_case(seed, idx, tier):
     if tier == "thorough" and idx == 0:
         return {"kind": "repo-tests"}       # the repo's own factor tests under the class-invariant monitor
     rng = gen.rng_for("C04", seed, idx)
+    big = tier == "thorough"
+    mx = 5 if big else 4                                # largest scope of one factor
     vkind = rng.choice(["str", "str", "str", "word", "int", "tuple"])
     if vkind == "str":
-        pool = ["a", "b", "c", "d", "e"]
+        pool = ["a", "b", "c", "d", "e", "f"]
     elif vkind == "word":
-        pool = ["rain", "Sprinkler", "x1", "x10", "_z"]
+        pool = ["rain", "Sprinkler", "x1", "x10", "_z", "two words"]
     elif vkind == "int":
-        pool = [0, 1, 2, 3, 7]
+        pool = [0, 1, 2, 3, 7, 11]
     else:
-        pool = [("t", 0), ("t", 1), ("u", 0), ("u", 1), ("w", 5)]
+        pool = [("t", 0), ("t", 1), ("u", 0), ("u", 1), ("w", 5), ("w", 6)]
+    pool = pool[:6 if big else 5]
     rng.shuffle(pool)
     while True:
-        cards = [rng.choice((1, 2, 2, 2, 3, 3, 4)) for _ in pool]
+        cards = [rng.choice((1, 2, 2, 2, 3, 3, 4, 5) if big else (1, 2, 2, 2, 3, 3, 4)) for _ in pool]
         tot = 1
         for c in cards:
             tot *= c
-        if tot <= 576:
+        if tot <= (1200 if big else 576):
             break
     skind = rng.choice(gen.STATE_KINDS)
     states = [gen.state_names_for(rng, v, c, skind) for v, c in zip(pool, cards)]
     card = dict(zip(pool, cards))
     rel = rng.choice(["disjoint", "nested", "nested", "overlap", "overlap", "equal", "empty", "random", "random"])
-    sa, sb = _pair_scopes(rng, pool, rel)
+    sa, sb = _pair_scopes(rng, pool, rel, mx)
     f0 = _rand_factor(rng, card, sa)
     f1 = _rand_factor(rng, card, sb)
     # f2: a divisor for f0 (scope inside f0's), zeros so that 0/0 and x/0 both occur
     f2 = _rand_factor(rng, card, _subset(rng, f0["vars"], 0), zero_p=rng.choice([0.0, 0.2, 0.4]))
-    f3 = _rand_factor(rng, card, _subset(rng, pool, 0, 4))
+    if rng.random() < 0.35:
+        _force_zero_over_zero(rng, card, f0, f2)
+    f3 = _rand_factor(rng, card, _subset(rng, pool, 0, mx))
     factors = [f0, f1, f2, f3]
     union = [v for v in pool if any(v in f["vars"] for f in factors)]
     ks = sorted(rng.sample(range(4), rng.randint(1, 4)))
@@ -377,7 +403,7 @@ def gen_case(seed, idx, tier):
         "scalars": [rng.choice(SCALARS), rng.choice(SCALARS)],
         "nary": {"ks": ks, "out": _subset(rng, nun, 0), "out2": _subset(rng, union, 0),
                  "assoc": rng.sample(range(4), 3)},
-        "chain": _gen_chain(rng, pool, card, factors),
+        "chain": _gen_chain(rng, pool, card, factors, steps=9 if big else 6),
     }
 
 
@@ -631,8 +657,11 @@ class Runner:
             return ctx.violation(f"c04:exception:{r.type}@{r.where}", f"{label}: == raised {r!r}")
         if not isinstance(r, (bool, np.bool_)):
             return ctx.violation("c04:eq-type", f"{label}: == returned {type(r).__name__}")
-        ctx.expect(bool(r) == want, "c04:wrong-eq-" + ("false-negative" if want else "false-positive"),
-                   f"{label}: == returned {bool(r)}, dictionaries say {want}", left=_show(F), right=_show(G))
+        if bool(r) == want:
+            ctx.ok()
+        else:
+            ctx.violation("c04:wrong-eq-" + ("false-negative" if want else "false-positive"),
+                          f"{label}: == returned {bool(r)}, dictionaries say {want}", left=_show(F), right=_show(G))
         r2 = ctx.call(lambda: F != G)
         if ctx.failed(r2):
             ctx.violation(f"c04:exception:{r2.type}@{r2.where}", f"{label}: != raised {r2!r}")
@@ -816,6 +845,9 @@ def binary_battery(R, A, B, tag, with_divide):
         R.apply(op, f"{tag}: f.{meth}(f) in place", lambda: getattr(F3, meth)(F3), ofn(A, A), target=F3)
     if with_divide:
         exp = o_divide(A, B)
+        R.ctx.note("divide-cells-x/0", sum(1 for x in exp.tab.values() if math.isinf(x)))
+        R.ctx.note("divide-cells-0/0", sum(1 for k, x in exp.tab.items() if x == 0 and
+                                          B.tab[frozenset(p for p in k if p[0] in B.states)] == 0))
         keep = [("dividend", F), ("divisor", G)]
         variants = [("f.divide(g, inplace=False)", lambda: F.divide(G, inplace=False), None),
                     ("f / g", lambda: F / G, None),
@@ -862,9 +894,8 @@ def nary_battery(R, As, nary):
     exp = o_eliminate(prod, [v for v in prod.states if v not in out], "sum")
     r = R.apply("sum-product", f"factor_sum_product({out!r}, f{ks})", lambda: factor_sum_product(list(out), list(Fs)),
                 exp, keep=keep, alias=False)
-    if r is not None:
-        R.ctx.expect(list(r.variables) == out, "c04:sum-product-output-order",
-                     f"factor_sum_product output scope {r.variables!r} is not the requested {out!r}")
+    if r is not None and list(r.variables) != out:
+        R.ctx.note("sum-product-output-axis-order-differs-from-request")     # axis order is not part of the statement
     # all four factors, every variable of the union that was asked for
     allF = [R.mk(A) for A in As]
     full = As[0]
